@@ -36,6 +36,29 @@ theorem C06_shared_helper_counterexample :
     simp [hr] at h
     exact ⟨s, steps_of_run hr, h.1.1.1.1, h.1.1.1.2, h.1.1.2, h.1.2, h.2⟩
 
+/-- two packages (modules 0, 1) load module 2 of a project that is not in the build list -/
+def twoOnUnfetchable : Project :=
+  { loads := fun m => match m with | 0 => [2] | 1 => [2] | _ => [], roots := [0, 1], broken := fun m => m == 2 }
+
+/-- goroutine 0 registers the module, fails to set up its environment and returns the error *without* `done()`;
+goroutine 1 then finds the module in the registry and waits for it -/
+def twoOnUnfetchableSchedule : List Tid := [0, 0, 0, 0, 0, 0, 0, 0, 0, 0, 0, 1, 1, 1, 1, 1, 1, 1, 1, 1]
+
+/-- D17 (regression witness): with `module.load` as written, a module whose environment cannot be set up stays in the
+registry unfinished, and the second goroutine that loads it sleeps for ever: `Load` hangs. -/
+theorem C06_unfetchable_counterexample :
+    ∃ s, Reachable .asWritten twoOnUnfetchable s ∧ stuck .asWritten twoOnUnfetchable s = true ∧
+      unfinished twoOnUnfetchable s = true ∧ s.pc 0 = .finished ∧ s.pc 1 = .sleep 2 ∧
+      s.registry 2 = true ∧ s.loaded 2 = false := by
+  have h : (run .asWritten twoOnUnfetchable (init twoOnUnfetchable) twoOnUnfetchableSchedule).any (fun s =>
+      stuck .asWritten twoOnUnfetchable s && unfinished twoOnUnfetchable s && decide (s.pc 0 = .finished) &&
+      decide (s.pc 1 = .sleep 2) && s.registry 2 && !s.loaded 2) = true := by decide
+  cases hr : run .asWritten twoOnUnfetchable (init twoOnUnfetchable) twoOnUnfetchableSchedule with
+  | none => simp [hr] at h
+  | some s =>
+    simp [hr] at h
+    exact ⟨s, steps_of_run hr, h.1.1.1.1.1, h.1.1.1.1.2, h.1.1.1.2, h.1.1.2, h.1.2, h.2⟩
+
 /-! ## the repaired loader -/
 
 /-- C06, once-only: in every reachable state every module file has been executed at most once, however many modules
@@ -49,16 +72,16 @@ theorem C06_once_loaded {P : Project} {s : State} (h : Reachable .fixed P s) (m 
     (s.loaded m = true → s.execs m = 1) ∧ (s.registry m = false → s.execs m = 0) :=
   ⟨(inv2_reachable h).loaded_execs m, (inv2_reachable h).unreg m⟩
 
-/-- C06, no false cycle: in an acyclic project no goroutine ever obtains a cyclic-dependency verdict and no module
-ever fails — in every reachable state. -/
-theorem C06_no_false_cycle {P : Project} (hac : Acyclic P) {s : State} (h : Reachable .fixed P s) :
-    (∀ t, s.pc t ≠ .unset .cyc ∧ s.pc t ≠ .fin .cyc) ∧ ∀ m, s.failed m = false :=
-  have nf := nofail_reachable hac h
-  ⟨fun t => ⟨nf.no_unset t, nf.no_fin t⟩, nf.no_failed⟩
+/-- C06, no false cycle: in an acyclic project (all of whose modules can be fetched) no goroutine ever obtains a
+cyclic-dependency verdict or any other error, and no module ever fails — in every reachable state. -/
+theorem C06_no_false_cycle {P : Project} (hac : Acyclic P) (hnb : NoBroken P) {s : State} (h : Reachable .fixed P s) :
+    (∀ t r, (s.pc t = .unset r ∨ s.pc t = .fin r) → r = .ok) ∧ ∀ m, s.result m = .ok :=
+  have nf := nofail_reachable hac hnb h
+  ⟨fun t r hr => hr.elim (nf.no_unset t r) (nf.no_fin t r), nf.no_failed⟩
 
 /-- when all goroutines have returned and nothing failed, everything reachable from a package is loaded -/
 theorem terminal_closure {P : Project} {s : State} (h : Reachable .fixed P s) (ht : Terminal P s)
-    (hnf : ∀ m, s.loaded m = true → s.failed m = false) : ∀ m, Reach P m → okLoaded s m := by
+    (hnf : ∀ m, s.loaded m = true → s.result m = .ok) : ∀ m, Reach P m → okLoaded s m := by
   have inv5 := inv5_reachable h
   have hroot : ∀ r ∈ P.roots, okLoaded s r := by
     intro r hr
@@ -79,10 +102,11 @@ theorem terminal_closure {P : Project} {s : State} (h : Reachable .fixed P s) (h
 /-- C06, acyclic graphs load successfully: when every goroutine of an acyclic project has returned, no module has
 failed, every module reachable from a package — helpers shared by several packages and the modules they load
 included — has been loaded, executed exactly once, and nothing else has been executed. -/
-theorem C06_acyclic_ok {P : Project} (hac : Acyclic P) {s : State} (h : Reachable .fixed P s) (ht : Terminal P s) :
-    (∀ m, s.failed m = false) ∧ (∀ m, Reach P m → s.loaded m = true ∧ s.execs m = 1) ∧
+theorem C06_acyclic_ok {P : Project} (hac : Acyclic P) (hnb : NoBroken P) {s : State} (h : Reachable .fixed P s)
+    (ht : Terminal P s) :
+    (∀ m, s.result m = .ok) ∧ (∀ m, Reach P m → s.loaded m = true ∧ s.execs m = 1) ∧
     (∀ m, ¬ Reach P m → s.loaded m = false ∧ s.execs m = 0) := by
-  have nf := nofail_reachable hac h
+  have nf := nofail_reachable hac hnb h
   refine ⟨nf.no_failed, ?_, ?_⟩
   · intro m hm
     have := terminal_closure h ht (fun m _ => nf.no_failed m) m hm
@@ -100,11 +124,11 @@ theorem C06_acyclic_ok {P : Project} (hac : Acyclic P) {s : State} (h : Reachabl
 /-- C06, deterministic result: any two complete loads of the same acyclic project — whatever the two interleavings —
 end with the same modules loaded, none failed, and the same execution counts; the project's targets and flags are
 those the loaded modules define, hence the same. -/
-theorem C06_deterministic {P : Project} (hac : Acyclic P) {s₁ s₂ : State}
+theorem C06_deterministic {P : Project} (hac : Acyclic P) (hnb : NoBroken P) {s₁ s₂ : State}
     (h₁ : Reachable .fixed P s₁) (h₂ : Reachable .fixed P s₂) (t₁ : Terminal P s₁) (t₂ : Terminal P s₂) (m : Mod) :
-    s₁.loaded m = s₂.loaded m ∧ s₁.failed m = s₂.failed m ∧ s₁.execs m = s₂.execs m := by
-  have a₁ := C06_acyclic_ok hac h₁ t₁
-  have a₂ := C06_acyclic_ok hac h₂ t₂
+    s₁.loaded m = s₂.loaded m ∧ s₁.result m = s₂.result m ∧ s₁.execs m = s₂.execs m := by
+  have a₁ := C06_acyclic_ok hac hnb h₁ t₁
+  have a₂ := C06_acyclic_ok hac hnb h₂ t₂
   refine ⟨?_, by rw [a₁.1 m, a₂.1 m], ?_⟩
   · by_cases hm : Reach P m
     · rw [(a₁.2.1 m hm).1, (a₂.2.1 m hm).1]
@@ -113,18 +137,16 @@ theorem C06_deterministic {P : Project} (hac : Acyclic P) {s₁ s₂ : State}
     · rw [(a₁.2.1 m hm).2, (a₂.2.1 m hm).2]
     · rw [(a₁.2.2 m hm).2, (a₂.2.2 m hm).2]
 
-/-- C06, cycles are reported: if a module reachable from a package lies on a cycle of `load` statements, then whenever
-all goroutines have returned some module has failed — and modules fail only with the cyclic-dependency error, which
-`Load` returns. (That the goroutines do return is `C06_deadlock_free`.) -/
-theorem C06_cycle_reported {P : Project} {s : State} (h : Reachable .fixed P s) (ht : Terminal P s)
-    (hc : ∃ m, Reach P m ∧ Path P m m) : ∃ m, s.loaded m = true ∧ s.failed m = true := by
+/-- when all goroutines have returned and a reachable module lies on a cycle of `load` statements, some module failed -/
+theorem terminal_cycle_fails {P : Project} {s : State} (h : Reachable .fixed P s) (ht : Terminal P s)
+    (hc : ∃ m, Reach P m ∧ Path P m m) : ∃ m, s.loaded m = true ∧ s.result m ≠ .ok := by
   apply Classical.byContradiction
   intro hno
-  have hnf : ∀ m, s.loaded m = true → s.failed m = false := by
+  have hnf : ∀ m, s.loaded m = true → s.result m = .ok := by
     intro m hl
-    cases hf : s.failed m with
-    | false => rfl
-    | true => exact absurd ⟨m, hl, hf⟩ hno
+    apply Classical.byContradiction
+    intro hf
+    exact hno ⟨m, hl, hf⟩
   obtain ⟨m, hm, hp⟩ := hc
   have inv5 := inv5_reachable h
   have hok := terminal_closure h ht hnf m hm
@@ -139,6 +161,35 @@ theorem C06_cycle_reported {P : Project} {s : State} (h : Reachable .fixed P s) 
       have h2 := ih h1.1
       exact ⟨h2.1, Nat.lt_trans h2.2 h1.2⟩
   exact absurd (hdec m m hp hok).2 (Nat.lt_irrefl _)
+
+/-- C06, cycles are reported: if a module reachable from a package lies on a cycle of `load` statements (and every
+module can be fetched), then whenever all goroutines have returned some module has failed with the
+cyclic-dependency error — the only error there is — and `Load` returns it. (That the goroutines do return is
+`C06_deadlock_free`.) -/
+theorem C06_cycle_reported {P : Project} (hnb : NoBroken P) {s : State} (h : Reachable .fixed P s) (ht : Terminal P s)
+    (hc : ∃ m, Reach P m ∧ Path P m m) :
+    (∃ m, s.loaded m = true ∧ s.result m = .cyc) ∧ ∀ m, s.result m ≠ .err := by
+  have oc := onlycyc_reachable hnb h
+  obtain ⟨m, hl, hr⟩ := terminal_cycle_fails h ht hc
+  refine ⟨⟨m, hl, ?_⟩, oc.no_err⟩
+  have := oc.no_err m
+  cases hres : s.result m <;> simp_all
+
+/-- D17 side: a reachable module whose environment cannot be set up makes the load fail (instead of hanging): when all
+goroutines have returned that module is finished, with its error, and was "executed" once. -/
+theorem C06_unfetchable_reported {P : Project} {s : State} (h : Reachable .fixed P s) (ht : Terminal P s)
+    {b : Mod} (hb : Reach P b) (hbr : P.broken b = true) : ∃ m, s.loaded m = true ∧ s.result m ≠ .ok := by
+  apply Classical.byContradiction
+  intro hno
+  have hnf : ∀ m, s.loaded m = true → s.result m = .ok := by
+    intro m hl
+    apply Classical.byContradiction
+    intro hf
+    exact hno ⟨m, hl, hf⟩
+  have hok := terminal_closure h ht hnf b hb
+  have := (invB_reachable h).res b hok.1 hbr
+  rw [hok.2] at this
+  cases this
 
 /-- C06, no deadlock: in every reachable state in which some loader goroutine has not returned, some goroutine can
 take a step — for every load graph (acyclic or cyclic, shared helpers, self-loads), any number of packages and every
@@ -179,6 +230,8 @@ theorem acyclic_of_rank {P : Project} (rank : Mod → Nat) (h : ∀ a b, b ∈ P
   exact absurd (this m m hp) (Nat.lt_irrefl _)
 
 /-- the D4 project is acyclic … -/
+theorem sharedHelper_noBroken : NoBroken sharedHelper := fun _ _ => rfl
+
 theorem sharedHelper_acyclic : Acyclic sharedHelper := by
   refine acyclic_of_rank (fun m => match m with | 0 => 3 | 1 => 3 | 2 => 2 | _ => 0) ?_
   intro a b hb
@@ -213,6 +266,28 @@ example : Reachable .fixed sharedHelper (init sharedHelper) ∧ ¬ Terminal shar
   have := h 0 (by decide)
   simp [init, sharedHelper] at this
 
+/-- the hypotheses of `C06_unfetchable_reported` are met, and the repaired loader finishes on that project: module 2
+ends with the environment error, executed once, and both packages fail with it -/
+example : Reach twoOnUnfetchable 2 ∧ twoOnUnfetchable.broken 2 = true :=
+  ⟨⟨0, by simp [twoOnUnfetchable], Or.inr (.edge (by simp [twoOnUnfetchable]))⟩, rfl⟩
+
+example : ∃ s, Reachable .fixed twoOnUnfetchable s ∧ Terminal twoOnUnfetchable s ∧ s.loaded 2 = true ∧
+    s.result 2 = .err ∧ s.execs 2 = 1 ∧ s.result 0 = .err ∧ s.result 1 = .err := by
+  have h : (run .fixed twoOnUnfetchable (init twoOnUnfetchable)
+      [0, 0, 0, 0, 0, 0, 0, 0, 0, 0, 0, 0, 1, 1, 1, 1, 1, 1, 1, 1, 1, 1, 1, 1]).any (fun s =>
+      !unfinished twoOnUnfetchable s && s.loaded 2 && s.result 2 == .err && s.execs 2 == 1 && s.result 0 == .err &&
+      s.result 1 == .err) = true := by decide
+  cases hr : run .fixed twoOnUnfetchable (init twoOnUnfetchable)
+      [0, 0, 0, 0, 0, 0, 0, 0, 0, 0, 0, 0, 1, 1, 1, 1, 1, 1, 1, 1, 1, 1, 1, 1] with
+  | none => simp [hr] at h
+  | some s =>
+    simp only [hr, Option.any_some, Bool.and_eq_true, Bool.not_eq_eq_eq_not, Bool.not_true, beq_iff_eq] at h
+    refine ⟨s, steps_of_run hr, ?_, h.1.1.1.1.2, h.1.1.1.2, h.1.1.2, h.1.2, h.2⟩
+    intro t ht
+    have := h.1.1.1.1.1
+    simp only [unfinished, List.any_eq_false, List.mem_range, bne_iff_ne, ne_eq, Decidable.not_not] at this
+    exact this t ht
+
 /-- a cyclic project: package 0 loads 1, 1 loads 2, 2 loads 3, 3 loads 1 (the three-module cycle that the code as
 written cannot report) -/
 def threeCycle : Project :=
@@ -226,14 +301,14 @@ def threeCycleSchedule : List Tid :=
   [0, 0, 0, 0, 0, 0, 0, 0, 0, 0, 0, 0, 0, 0, 0, 0, 0, 0, 0, 0, 0, 0, 0, 0, 0, 0, 0, 0, 0, 0]
 
 /-- the repaired loader reaches a terminal state on it, with the cycle's modules failed -/
-example : ∃ s, Reachable .fixed threeCycle s ∧ Terminal threeCycle s ∧ s.loaded 1 = true ∧ s.failed 1 = true := by
+example : ∃ s, Reachable .fixed threeCycle s ∧ Terminal threeCycle s ∧ s.loaded 1 = true ∧ s.result 1 = .cyc := by
   have h : (run .fixed threeCycle (init threeCycle) threeCycleSchedule).any (fun s =>
-      !unfinished threeCycle s && s.loaded 1 && s.failed 1) = true := by decide
+      !unfinished threeCycle s && s.loaded 1 && s.result 1 == .cyc) = true := by decide
   cases hr : run .fixed threeCycle (init threeCycle) threeCycleSchedule with
   | none => simp [hr] at h
   | some s =>
     simp only [hr, Option.any_some, Bool.and_eq_true, Bool.not_eq_eq_eq_not, Bool.not_true] at h
-    refine ⟨s, steps_of_run hr, ?_, h.1.2, h.2⟩
+    refine ⟨s, steps_of_run hr, ?_, h.1.2, by simpa using h.2⟩
     intro t ht
     have := h.1.1
     simp only [unfinished, List.any_eq_false, List.mem_range, bne_iff_ne, ne_eq, Decidable.not_not] at this
